@@ -236,9 +236,106 @@ def search(check, level=1):
     return n, None
 
 
+def reuse_problems():
+    """A scope object entered a second time (after it was left, after its first entering failed, or from inside its own
+    block) is refused - and the refusal leaves the surrounding code exactly as it was: same state, metrics scope and task
+    group, no disposable entered again, tasks spawned afterwards still belong to the enclosing scope."""
+    out = []
+
+    class Counting:
+        def __init__(self, fail_first=False):
+            self.entered, self.exited, self.fail_first = 0, 0, fail_first
+
+        async def __aenter__(self):
+            self.entered += 1
+            if self.fail_first and self.entered == 1:
+                raise DispError(("enter", 0))
+            return A(v=5)
+
+        async def __aexit__(self, *a):
+            self.exited += 1
+
+    async def attempt(kind, is_async, first):
+        d = Counting(fail_first=(first == "enter-failed"))
+        sc = ctx.scope("reused", A(v=2), disposables=[d]) if is_async and first != "plain" else ctx.scope("reused", A(v=2))
+        refused = []
+
+        async def enter_again():
+            try:
+                if is_async:
+                    async with sc:
+                        refused.append("accepted")
+                else:
+                    with sc:
+                        refused.append("accepted")
+            except (AssertionError, RuntimeError) as e:
+                refused.append(type(e).__name__)
+        if first == "active":
+            if is_async:
+                async with sc:
+                    inside = context_now()
+                    await enter_again()
+                    if any(a is not b for a, b in zip(inside, context_now())):
+                        out.append(f"{kind}: re-entering the active scope object from inside its block changed the context of the block")
+            else:
+                with sc:
+                    inside = context_now()
+                    await enter_again()
+                    if any(a is not b for a, b in zip(inside, context_now())):
+                        out.append(f"{kind}: re-entering the active scope object from inside its block changed the context of the block")
+        else:
+            try:
+                if is_async:
+                    async with sc:
+                        pass
+                else:
+                    with sc:
+                        pass
+            except DispError:
+                pass
+            await enter_again()
+        if refused != ["AssertionError"] and refused != ["RuntimeError"]:
+            out.append(f"{kind}: entering the scope object again was {refused}")
+        return d
+
+    async def main():
+        for is_async in (True, False):
+            for first in ("plain", "left", "enter-failed", "active"):
+                if not is_async and first in ("left", "enter-failed"):
+                    continue
+                kind = f"{'async' if is_async else 'sync'} scope object, first use {first}"
+                async with ctx.scope("enclosing", A(v=1)):
+                    before = context_now()
+                    d = await attempt(kind, is_async, first)
+                    after = context_now()
+                    names = ("state", "metrics scope", "task group")
+                    for nme, a, b in zip(names, before, after):
+                        if a is not b:
+                            out.append(f"{kind}: after the refused second entering the surrounding code sees another {nme}")
+                    if ctx.state(A).v != 1:
+                        out.append(f"{kind}: after the refused second entering ctx.state(A).v is {ctx.state(A).v}, expected 1")
+                    if is_async and first != "plain" and (d.entered, d.exited) not in ((1, 1), (1, 0) if first == "enter-failed" else (1, 1)):
+                        out.append(f"{kind}: the disposable was entered {d.entered}x and exited {d.exited}x")
+                    released = asyncio.Event()
+
+                    async def worker():
+                        await released.wait()
+                    t = ctx.spawn(worker)
+                    asyncio.get_running_loop().call_soon(released.set)
+                if not t.done():
+                    out.append(f"{kind}: a task spawned from the enclosing scope after the refused entering outlived that scope")
+                    t.cancel()
+    asyncio.run(main())
+    return out
+
+
 def main(check):
     import json
     sys.stdin.read()
+    rp = reuse_problems()
+    if rp:
+        print(json.dumps(dict(reproduced=True, detail=dict(scenario="scope object entered a second time", problem=rp[0]), cases_tried=1)))
+        return
     n, fail = search(check, int(os.environ.get("SCOPE_LEVEL", "1")))
     if fail:
         print(json.dumps(dict(reproduced=True, detail=fail, cases_tried=n), default=str))
